@@ -179,19 +179,23 @@ Definition use_stdin (args : list path) : bool :=
   match args with [] => true | a :: _ => bytes_eqb a DASH end.
 
 Variable flush : list bool.   (* OpenReaderToChan: the 250 ms auto-flush decisions *)
-Definition stdin_source (bsz : nat) (data : content) : source :=
-  (true, false, cut StdinName bsz flush (lines_spec data)).
+(* [e]: the stream of standard input ends in a read error (EISDIR, EIO, ...) after delivering [data];
+   syncReaderToBatcherWithTimeFlush counts and logs it like any other input's *)
+Definition stdin_source (bsz : nat) (data : content) (e : bool) : source :=
+  (true, e, cut StdinName bsz flush (lines_spec data)).
 
 Record cli_in := mkin {
   ci_args : list path; ci_recursive : bool; ci_gunzip : bool; ci_batch : nat;
-  ci_stdin : content; ci_mode : N * N    (* (0,_) filter, every line matches; (1,q) filter, lines containing byte q match;
+  ci_stdin : content; ci_stdin_err : bool;   (* what standard input delivers, and whether it then fails *)
+  ci_mode : N * N    (* (0,_) filter, every line matches; (1,q) filter, lines containing byte q match;
                                             (2,_) histogram keyed by source with the line as increment *)
 }.
 
 (* None = usage error (logger.Fatalln: -z with stdin); Some (sources, log lines of expansion and opening) *)
 Definition cli_sources (i : cli_in) : option (list source * nat) :=
   if use_stdin (ci_args i) then
-    if ci_gunzip i then None else Some ([stdin_source (ci_batch i) (ci_stdin i)], 0)
+    if ci_gunzip i then None
+    else Some ([stdin_source (ci_batch i) (ci_stdin i) (ci_stdin_err i)], if ci_stdin_err i then 1 else 0)
   else
     let ex := expand (ci_recursive i) (ci_args i) in
     Some (map (source_of (ci_gunzip i) (ci_batch i)) (fst ex),
@@ -279,8 +283,10 @@ Definition C06_check (i : cli_in) (o : cli_obs) : bool :=
     if ci_gunzip i then Z.eqb (co_exit o) exit_usage && match co_lines o with [] => true | _ => false end && (1 <=? co_nlog o)
     else
       let keys := filter (matched_b (ci_mode i)) (numbered STDIN_LIT 1%N (lines_spec (ci_stdin i))) in
+      let nerr := if ci_stdin_err i then 1 else 0 in
       lines_same (co_lines o) (shown (ci_mode i) keys) &&
-      Z.eqb (co_exit o) (exit_code 0 (parse_errors (ci_mode i) keys) (length keys))
+      Z.eqb (co_exit o) (exit_code nerr (parse_errors (ci_mode i) keys) (length keys)) &&
+      (nerr <=? co_nlog o)
   else
     let ms := spec_mentions fs glob i in
     let keys := filter (matched_b (ci_mode i)) (flat_map (spec_lines_of gunzip (ci_gunzip i)) ms) in
